@@ -103,6 +103,10 @@ impl Names {
             1 => (vec![p("a_i", 1), p("b", 1)], vec![p("a_i", 1), p("c_g", 1)]),
             _ => (vec![p("a", 1)], vec![p("a", 1)]),
         };
+        // names whose completed-definition labels collide when labels are merely suffixed: c/1 and c_1/1
+        if c.aux(106, 5) == 0 {
+            n.outputs = vec![p("c", 1), p("c_1", 1)];
+        }
         n.left_private = lp;
         n.right_private = rp;
         n.symbols = vec!["u".into(), "s_s".into(), "b__s".into(), "m_g".into(), "aB_1".into(), "vertex_11".into(), "vertex_10".into(), "vertex_1".into(), "vertex_2".into(), "vertex_09".into()];
@@ -717,6 +721,12 @@ pub fn specification(c: &mut Chooser, names: &Names) -> fol::Specification {
         );
         formulas.push(annotated(fol::Role::Spec, direction(c), "range", f));
     }
+    // formula names given twice, next to a name that looks like a numbered copy (def, def, def_1)
+    if c.aux(107, 5) == 0 {
+        for (i, f) in formulas.iter_mut().enumerate() {
+            f.name = ["def", "def", "def_1", "def_1_1"][i.min(3)].to_string();
+        }
+    }
     // an existentially quantified equivalence (equivalence breaking must not distribute `exists`
     // over the two halves), decided without consuming a choice
     if c.aux(51, 3) == 0 {
@@ -972,6 +982,24 @@ pub fn external_task_with(c: &mut Chooser, names: Names) -> ExternalTask {
         let outputs: Vec<String> = task.names.outputs.iter().map(|o| o.0.clone()).collect();
         task.right.rules.retain(|r| !r.head.predicate().is_some_and(|h| outputs.contains(&h.symbol)));
         task.mutation = "all-output-rules-dropped";
+    }
+    // one task in five with an integer placeholder: a ground comparison between the placeholder and a
+    // numeral (`n != 0`, `n = 1`) joins the body of the first rule of the second program (and, half of the
+    // time, of the first program): its truth depends on the interpretation of the placeholder alone
+    if c.data.len() >= 180 && c.aux(108, 5) == 0 {
+        if let Some((n, _)) = task.names.placeholders.iter().find(|p| p.1 == fol::Sort::Integer).cloned() {
+            let rel = [asp::Relation::NotEqual, asp::Relation::Equal, asp::Relation::NotEqual][c.aux(109, 3)];
+            let k = c.aux(110, 3) as isize;
+            let extra = if c.aux(111, 2) == 0 { cmp(sym(&n), rel, num(k)) } else { cmp(num(k), rel, sym(&n)) };
+            if let Some(r) = task.right.rules.iter_mut().find(|r| !r.body.formulas.is_empty()) {
+                r.body.formulas.push(extra.clone());
+            }
+            if c.aux(112, 2) == 0 {
+                if let Some(r) = task.left_program.as_mut().and_then(|p| p.rules.iter_mut().find(|r| !r.body.formulas.is_empty())) {
+                    r.body.formulas.push(extra);
+                }
+            }
+        }
     }
     // in one task of three the program variables carry names that tau*, natural and the simplifier
     // also use for their fresh variables (decided without consuming a choice)
